@@ -335,6 +335,8 @@ fn field_def(sch: &Sch, parent: &str, name: &str) -> Option<FieldDef> {
 struct Walk<'s> {
     sch: &'s Sch,
     dirs: Vec<DirDef>,
+    /// leave `__typename` selections alone (construct of C09-F11)
+    skip_typename: bool,
 }
 
 impl<'s> Walk<'s> {
@@ -377,6 +379,9 @@ impl<'s> Walk<'s> {
         for it in sel.items.iter_mut() {
             match it {
                 Selection::Field(f) => {
+                    if self.skip_typename && f.name.s == "__typename" {
+                        continue;
+                    }
                     let def = field_def(self.sch, parent, &f.name.s);
                     cb(Site::Field { f: &mut *f, parent, def: def.as_ref() });
                     if let Some(d) = &def {
@@ -411,8 +416,8 @@ impl<'s> Walk<'s> {
     }
 }
 
-fn each_site(doc: &mut Doc, sch: &Sch, cb: &mut dyn FnMut(Site<'_>)) {
-    let w = Walk { sch, dirs: builtin_directives() };
+fn each_site(doc: &mut Doc, sch: &Sch, skip_typename: bool, cb: &mut dyn FnMut(Site<'_>)) {
+    let w = Walk { sch, dirs: builtin_directives(), skip_typename };
     for def in doc.defs.iter_mut() {
         match def {
             Def::Op(o) => {
@@ -451,9 +456,9 @@ fn each_site(doc: &mut Doc, sch: &Sch, cb: &mut dyn FnMut(Site<'_>)) {
 }
 
 /// apply `apply` to a randomly chosen site among those satisfying `test`; false if there is none
-fn mutate_nth(doc: &mut Doc, sch: &Sch, s: &mut dyn Src, test: &dyn Fn(&Site<'_>) -> bool, apply: &mut dyn FnMut(Site<'_>, &mut dyn Src)) -> bool {
+fn mutate_nth(doc: &mut Doc, sch: &Sch, skip_typename: bool, s: &mut dyn Src, test: &dyn Fn(&Site<'_>) -> bool, apply: &mut dyn FnMut(Site<'_>, &mut dyn Src)) -> bool {
     let mut n = 0usize;
-    each_site(doc, sch, &mut |site| {
+    each_site(doc, sch, skip_typename, &mut |site| {
         if test(&site) {
             n += 1
         }
@@ -464,7 +469,7 @@ fn mutate_nth(doc: &mut Doc, sch: &Sch, s: &mut dyn Src, test: &dyn Fn(&Site<'_>
     let k = s.choose(n);
     let mut i = 0usize;
     let mut done = false;
-    each_site(doc, sch, &mut |site| {
+    each_site(doc, sch, skip_typename, &mut |site| {
         if !done && test(&site) {
             if i == k {
                 apply(site, s);
@@ -517,7 +522,9 @@ struct Excl {
     non_object_for_input: bool,
     string_for_enum: bool,
     variable_directives: bool,
-    non_null_variables: bool,
+    unknown_list_default: bool,
+    typename: bool,
+    int_range: bool,
     /// probe streams: the one way an input object literal is broken (see `wrong_literal`)
     force_input_kind: Option<u8>,
 }
@@ -562,7 +569,13 @@ fn wrong_literal(m: &M<'_>, ty: &Ty, cur: &Val, s: &mut dyn Src) -> Option<Val> 
             };
             let one = |v: Val| Val::List(vec![PVal::new(v)]);
             match n.as_str() {
-                "Int" => pick(s, vec![Val::Str("1".into()), Val::Float("1.5".into()), Val::Bool(true), Val::Int("2147483648".into()), Val::Int("-2147483649".into()), Val::Enum("ONE".into()), Val::Obj(vec![]), Val::Float("1e3".into())]),
+                "Int" => {
+                    let mut xs = vec![Val::Str("1".into()), Val::Float("1.5".into()), Val::Bool(true), Val::Enum("ONE".into()), Val::Obj(vec![]), Val::Float("1e3".into()), Val::Int("9223372036854775808".into())];
+                    if !m.excl.int_range {
+                        xs.extend([Val::Int("2147483648".into()), Val::Int("-2147483649".into())]);
+                    }
+                    pick(s, xs)
+                }
                 "Float" => pick(s, vec![Val::Str("1.5".into()), Val::Bool(false), Val::Enum("NaN".into()), Val::Obj(vec![])]),
                 "String" => pick(s, vec![Val::Int("1".into()), Val::Float("0.5".into()), Val::Bool(true), Val::Enum("abc".into()), Val::Obj(vec![])]),
                 "Boolean" => pick(s, vec![Val::Int("1".into()), Val::Str("true".into()), Val::Enum("TRUE".into()), Val::Float("0.0".into())]),
@@ -651,7 +664,7 @@ fn op_unknown_field(m: &mut M<'_>, s: &mut dyn Src) -> bool {
     if s.chance(1, 4) {
         // the query root's meta fields anywhere else
         let q = sch.query.clone();
-        return mutate_nth(&mut m.doc, sch, s, &|x| matches!(x, Site::Sel { parent, root_of, .. } if *parent != q && root_of.is_none()), &mut |x, s| {
+        return mutate_nth(&mut m.doc, sch, m.excl.typename, s, &|x| matches!(x, Site::Sel { parent, root_of, .. } if *parent != q && root_of.is_none()), &mut |x, s| {
             if let Site::Sel { sel, .. } = x {
                 let mut f = if s.bool() { fld("__schema", Some("zs")) } else { fld("__type", Some("zt")) };
                 if f.name.s == "__type" {
@@ -662,7 +675,7 @@ fn op_unknown_field(m: &mut M<'_>, s: &mut dyn Src) -> bool {
             }
         });
     }
-    mutate_nth(&mut m.doc, sch, s, &|x| matches!(x, Site::Field { .. }), &mut |x, s| {
+    mutate_nth(&mut m.doc, sch, m.excl.typename, s, &|x| matches!(x, Site::Field { .. }), &mut |x, s| {
         if let Site::Field { f, parent, .. } = x {
             // an unknown name, or a field of another type
             let other: Vec<String> = sch.types.values().filter(|t| matches!(t.kind, Kind::Object | Kind::Interface) && t.name != parent).flat_map(|t| t.fields.iter().map(|f| f.name.clone())).filter(|n| sch.field(parent, n).is_none()).collect();
@@ -674,13 +687,13 @@ fn op_unknown_field(m: &mut M<'_>, s: &mut dyn Src) -> bool {
 fn op_unknown_argument(m: &mut M<'_>, s: &mut dyn Src) -> bool {
     let sch = m.sch;
     if s.chance(1, 4) {
-        return mutate_nth(&mut m.doc, sch, s, &|x| matches!(x, Site::Dirs { ds, .. } if !ds.is_empty()), &mut |x, _| {
+        return mutate_nth(&mut m.doc, sch, m.excl.typename, s, &|x| matches!(x, Site::Dirs { ds, .. } if !ds.is_empty()), &mut |x, _| {
             if let Site::Dirs { ds, .. } = x {
                 ds[0].args.push((Name::new("zz9"), PVal::new(Val::Bool(true))));
             }
         });
     }
-    mutate_nth(&mut m.doc, sch, s, &|x| matches!(x, Site::Field { def: Some(_), .. }), &mut |x, s| {
+    mutate_nth(&mut m.doc, sch, m.excl.typename, s, &|x| matches!(x, Site::Field { def: Some(_), .. }), &mut |x, s| {
         if let Site::Field { f, .. } = x {
             let v = if s.bool() { Val::Int("1".into()) } else { Val::Null };
             f.args.push((Name::new("zz9"), PVal::new(v)));
@@ -690,10 +703,14 @@ fn op_unknown_argument(m: &mut M<'_>, s: &mut dyn Src) -> bool {
 
 fn op_unknown_type(m: &mut M<'_>, s: &mut dyn Src) -> bool {
     let sch = m.sch;
-    mutate_nth(&mut m.doc, sch, s, &|x| matches!(x, Site::Inline { i, .. } if i.cond.is_some()) || matches!(x, Site::Frag(_) | Site::VarDef(_)), &mut |x, _| match x {
+    let drop_default = m.excl.unknown_list_default;
+    mutate_nth(&mut m.doc, sch, m.excl.typename, s, &|x| matches!(x, Site::Inline { i, .. } if i.cond.is_some()) || matches!(x, Site::Frag(_) | Site::VarDef(_)), &mut |x, _| match x {
         Site::Inline { i, .. } => i.cond = Some(Name::new("Zz9")),
         Site::Frag(f) => f.cond = Name::new("Zz9"),
         Site::VarDef(v) => {
+            if drop_default {
+                v.default = None;
+            }
             fn rebase(t: &Ty) -> Ty {
                 match t {
                     Ty::Named(_) => Ty::named("Zz9"),
@@ -710,7 +727,7 @@ fn op_unknown_type(m: &mut M<'_>, s: &mut dyn Src) -> bool {
 fn op_unknown_directive(m: &mut M<'_>, s: &mut dyn Src) -> bool {
     let sch = m.sch;
     let no_vardefs = m.excl.variable_directives;
-    mutate_nth(&mut m.doc, sch, s, &|x| matches!(x, Site::Dirs { location, .. } if !(no_vardefs && *location == "VARIABLE_DEFINITION")), &mut |x, s| {
+    mutate_nth(&mut m.doc, sch, m.excl.typename, s, &|x| matches!(x, Site::Dirs { location, .. } if !(no_vardefs && *location == "VARIABLE_DEFINITION")), &mut |x, s| {
         if let Site::Dirs { ds, .. } = x {
             let mut d = Directive::new("zz9", vec![]);
             if s.bool() {
@@ -723,7 +740,7 @@ fn op_unknown_directive(m: &mut M<'_>, s: &mut dyn Src) -> bool {
 
 fn op_unknown_fragment(m: &mut M<'_>, s: &mut dyn Src) -> bool {
     let sch = m.sch;
-    mutate_nth(&mut m.doc, sch, s, &|x| matches!(x, Site::Sel { root_of, .. } if *root_of != Some(OpKind::Subscription)) || matches!(x, Site::Spread { .. }), &mut |x, _| match x {
+    mutate_nth(&mut m.doc, sch, m.excl.typename, s, &|x| matches!(x, Site::Sel { root_of, .. } if *root_of != Some(OpKind::Subscription)) || matches!(x, Site::Spread { .. }), &mut |x, _| match x {
         Site::Sel { sel, .. } => sel.items.push(spread("Zz9")),
         Site::Spread { sp } => sp.name = Name::new("Zz9"),
         _ => {}
@@ -734,7 +751,7 @@ fn op_wrong_literal(m: &mut M<'_>, s: &mut dyn Src) -> bool {
     let sch = m.sch;
     // make sure there is a typed value somewhere: give an argument to a field that takes one
     if s.chance(1, 3) {
-        mutate_nth(&mut m.doc, sch, s, &|x| matches!(x, Site::Field { f, def: Some(d), .. } if d.args.iter().any(|a| !f.args.iter().any(|(n, _)| n.s == a.name))), &mut |x, s| {
+        mutate_nth(&mut m.doc, sch, m.excl.typename, s, &|x| matches!(x, Site::Field { f, def: Some(d), .. } if d.args.iter().any(|a| !f.args.iter().any(|(n, _)| n.s == a.name))), &mut |x, s| {
             if let Site::Field { f, def: Some(d), .. } = x {
                 let missing: Vec<&ArgDef> = d.args.iter().filter(|a| !f.args.iter().any(|(n, _)| n.s == a.name)).collect();
                 let a = missing[s.choose(missing.len())];
@@ -744,7 +761,7 @@ fn op_wrong_literal(m: &mut M<'_>, s: &mut dyn Src) -> bool {
     }
     let snapshot = M { sch, doc: Doc::default(), vars: IndexMap::new(), op_name: None, extra_text: String::new(), extra_defs: 0, excl: m.excl };
     let mut changed = false;
-    mutate_nth(&mut m.doc, sch, s, &|x| matches!(x, Site::Value { ty, .. } if sch.kind(ty.base()) != Some(Kind::Scalar) || BUILTIN_SCALARS.contains(&ty.base())), &mut |x, s| {
+    mutate_nth(&mut m.doc, sch, m.excl.typename, s, &|x| matches!(x, Site::Value { ty, .. } if sch.kind(ty.base()) != Some(Kind::Scalar) || BUILTIN_SCALARS.contains(&ty.base())), &mut |x, s| {
         if let Site::Value { v, ty, .. } = x {
             if let Some(w) = wrong_literal(&snapshot, ty, &v.v, s) {
                 v.v = w;
@@ -758,7 +775,7 @@ fn op_wrong_literal(m: &mut M<'_>, s: &mut dyn Src) -> bool {
 fn op_missing_required_argument(m: &mut M<'_>, s: &mut dyn Src) -> bool {
     let sch = m.sch;
     if s.chance(1, 4) {
-        return mutate_nth(&mut m.doc, sch, s, &|x| matches!(x, Site::Dirs { ds, .. } if ds.iter().any(|d| !d.args.is_empty())), &mut |x, _| {
+        return mutate_nth(&mut m.doc, sch, m.excl.typename, s, &|x| matches!(x, Site::Dirs { ds, .. } if ds.iter().any(|d| !d.args.is_empty())), &mut |x, _| {
             if let Site::Dirs { ds, .. } = x {
                 if let Some(d) = ds.iter_mut().find(|d| !d.args.is_empty()) {
                     d.args.clear();
@@ -767,7 +784,7 @@ fn op_missing_required_argument(m: &mut M<'_>, s: &mut dyn Src) -> bool {
         });
     }
     let required = |d: &FieldDef, f: &Field| d.args.iter().any(|a| a.ty.is_nn() && a.default.is_none() && f.args.iter().any(|(n, _)| n.s == a.name));
-    mutate_nth(&mut m.doc, sch, s, &|x| matches!(x, Site::Field { f, def: Some(d), .. } if required(d, f)), &mut |x, s| {
+    mutate_nth(&mut m.doc, sch, m.excl.typename, s, &|x| matches!(x, Site::Field { f, def: Some(d), .. } if required(d, f)), &mut |x, s| {
         if let Site::Field { f, def: Some(d), .. } = x {
             let req: Vec<&ArgDef> = d.args.iter().filter(|a| a.ty.is_nn() && a.default.is_none()).collect();
             let r = req[s.choose(req.len())].name.clone();
@@ -782,7 +799,7 @@ fn op_missing_required_argument(m: &mut M<'_>, s: &mut dyn Src) -> bool {
 
 fn op_duplicate_argument(m: &mut M<'_>, s: &mut dyn Src) -> bool {
     let sch = m.sch;
-    mutate_nth(&mut m.doc, sch, s, &|x| matches!(x, Site::Field { f, .. } if !f.args.is_empty()) || matches!(x, Site::Dirs { ds, .. } if ds.iter().any(|d| !d.args.is_empty())), &mut |x, s| match x {
+    mutate_nth(&mut m.doc, sch, m.excl.typename, s, &|x| matches!(x, Site::Field { f, .. } if !f.args.is_empty()) || matches!(x, Site::Dirs { ds, .. } if ds.iter().any(|d| !d.args.is_empty())), &mut |x, s| match x {
         Site::Field { f, .. } => {
             let a = f.args[s.choose(f.args.len())].clone();
             f.args.push(a);
@@ -809,7 +826,7 @@ fn op_duplicate_variable(m: &mut M<'_>, s: &mut dyn Src) -> bool {
 
 fn op_duplicate_directive(m: &mut M<'_>, s: &mut dyn Src) -> bool {
     let sch = m.sch;
-    mutate_nth(&mut m.doc, sch, s, &|x| matches!(x, Site::Dirs { location, .. } if ["FIELD", "INLINE_FRAGMENT", "FRAGMENT_SPREAD"].contains(location)), &mut |x, s| {
+    mutate_nth(&mut m.doc, sch, m.excl.typename, s, &|x| matches!(x, Site::Dirs { location, .. } if ["FIELD", "INLINE_FRAGMENT", "FRAGMENT_SPREAD"].contains(location)), &mut |x, s| {
         if let Site::Dirs { ds, .. } = x {
             if ds.is_empty() {
                 let name = if s.bool() { "skip" } else { "include" };
@@ -829,7 +846,7 @@ fn op_conflict(m: &mut M<'_>, s: &mut dyn Src) -> bool {
     if !cross {
         return match s.choose(2) {
             // two fields of one parent under one key
-            0 => mutate_nth(&mut m.doc, sch, s, &|x| not_sub_root(x) && matches!(x, Site::Sel { parent, .. } if !plain_leaf_fields(sch, parent).is_empty()), &mut |x, s| {
+            0 => mutate_nth(&mut m.doc, sch, m.excl.typename, s, &|x| not_sub_root(x) && matches!(x, Site::Sel { parent, .. } if !plain_leaf_fields(sch, parent).is_empty()), &mut |x, s| {
                 if let Site::Sel { sel, parent, .. } = x {
                     let lf = plain_leaf_fields(sch, parent);
                     let a = lf[s.choose(lf.len())].name.clone();
@@ -840,7 +857,7 @@ fn op_conflict(m: &mut M<'_>, s: &mut dyn Src) -> bool {
                 }
             }),
             // one field with different arguments
-            _ => mutate_nth(&mut m.doc, sch, s, &|x| not_sub_root(x) && matches!(x, Site::Sel { sel, .. } if sel.items.iter().any(|i| matches!(i, Selection::Field(f) if !f.args.is_empty()))), &mut |x, s| {
+            _ => mutate_nth(&mut m.doc, sch, m.excl.typename, s, &|x| not_sub_root(x) && matches!(x, Site::Sel { sel, .. } if sel.items.iter().any(|i| matches!(i, Selection::Field(f) if !f.args.is_empty()))), &mut |x, s| {
                 if let Site::Sel { sel, .. } = x {
                     let with_args: Vec<Field> = sel.items.iter().filter_map(|i| match i {
                         Selection::Field(f) if !f.args.is_empty() => Some(f.clone()),
@@ -862,7 +879,7 @@ fn op_conflict(m: &mut M<'_>, s: &mut dyn Src) -> bool {
     }
     match s.choose(3) {
         // behind two type conditions (valid when both are objects and the shapes agree)
-        0 => mutate_nth(&mut m.doc, sch, s, &|x| not_sub_root(x) && matches!(x, Site::Sel { parent, .. } if sch.possible_types(parent).len() >= 2), &mut |x, s| {
+        0 => mutate_nth(&mut m.doc, sch, m.excl.typename, s, &|x| not_sub_root(x) && matches!(x, Site::Sel { parent, .. } if sch.possible_types(parent).len() >= 2), &mut |x, s| {
             if let Site::Sel { sel, parent, .. } = x {
                 let pt = sch.possible_types(parent);
                 let a = pt[s.choose(pt.len())].clone();
@@ -882,7 +899,7 @@ fn op_conflict(m: &mut M<'_>, s: &mut dyn Src) -> bool {
             }
         }),
         // the conflict sits in the merged sub-selections of one field selected twice
-        1 => mutate_nth(&mut m.doc, sch, s, &|x| not_sub_root(x) && matches!(x, Site::Sel { parent, .. } if plain_composite_fields(sch, parent).iter().any(|c| !sch.possible_types(c.ty.base()).is_empty())), &mut |x, s| {
+        1 => mutate_nth(&mut m.doc, sch, m.excl.typename, s, &|x| not_sub_root(x) && matches!(x, Site::Sel { parent, .. } if plain_composite_fields(sch, parent).iter().any(|c| !sch.possible_types(c.ty.base()).is_empty())), &mut |x, s| {
             if let Site::Sel { sel, parent, .. } = x {
                 let cf: Vec<FieldDef> = plain_composite_fields(sch, parent).into_iter().filter(|c| !sch.possible_types(c.ty.base()).is_empty()).collect();
                 let c = &cf[s.choose(cf.len())];
@@ -907,7 +924,7 @@ fn op_conflict(m: &mut M<'_>, s: &mut dyn Src) -> bool {
             }
         }),
         // one directly, one behind a fragment
-        _ => mutate_nth(&mut m.doc, sch, s, &|x| not_sub_root(x) && matches!(x, Site::Sel { parent, .. } if !plain_leaf_fields(sch, parent).is_empty()), &mut |x, s| {
+        _ => mutate_nth(&mut m.doc, sch, m.excl.typename, s, &|x| not_sub_root(x) && matches!(x, Site::Sel { parent, .. } if !plain_leaf_fields(sch, parent).is_empty()), &mut |x, s| {
             if let Site::Sel { sel, parent, .. } = x {
                 let lf = plain_leaf_fields(sch, parent);
                 let a = lf[s.choose(lf.len())].name.clone();
@@ -983,7 +1000,7 @@ fn op_undefined_variable(m: &mut M<'_>, s: &mut dyn Src) -> bool {
         }
     }
     // use a variable nobody defines
-    mutate_nth(&mut m.doc, sch, s, &|x| matches!(x, Site::Value { konst: false, .. }), &mut |x, _| {
+    mutate_nth(&mut m.doc, sch, m.excl.typename, s, &|x| matches!(x, Site::Value { konst: false, .. }), &mut |x, _| {
         if let Site::Value { v, .. } = x {
             v.v = Val::Var("zz9".into());
         }
@@ -1048,7 +1065,7 @@ fn op_impossible_spread(m: &mut M<'_>, s: &mut dyn Src) -> bool {
     };
     let named = s.bool();
     let mut new_frag: Option<Def> = None;
-    let ok = mutate_nth(&mut m.doc, sch, s, &|x| matches!(x, Site::Sel { parent, .. } if !disjoint(parent).is_empty()), &mut |x, s| {
+    let ok = mutate_nth(&mut m.doc, sch, m.excl.typename, s, &|x| matches!(x, Site::Sel { parent, .. } if !disjoint(parent).is_empty()), &mut |x, s| {
         if let Site::Sel { sel, parent, .. } = x {
             let d = disjoint(parent);
             let t = d[s.choose(d.len())].clone();
@@ -1081,7 +1098,7 @@ fn op_fragment_on_leaf(m: &mut M<'_>, s: &mut dyn Src) -> bool {
             return true;
         }
     }
-    mutate_nth(&mut m.doc, sch, s, &|x| matches!(x, Site::Sel { root_of, .. } if *root_of != Some(OpKind::Subscription)), &mut |x, _| {
+    mutate_nth(&mut m.doc, sch, m.excl.typename, s, &|x| matches!(x, Site::Sel { root_of, .. } if *root_of != Some(OpKind::Subscription)), &mut |x, _| {
         if let Site::Sel { sel, .. } = x {
             sel.items.push(inline(Some(&t), typename_sel()));
         }
@@ -1090,7 +1107,7 @@ fn op_fragment_on_leaf(m: &mut M<'_>, s: &mut dyn Src) -> bool {
 
 fn op_leaf_selection(m: &mut M<'_>, s: &mut dyn Src) -> bool {
     let sch = m.sch;
-    mutate_nth(&mut m.doc, sch, s, &|x| matches!(x, Site::Field { def: Some(_), .. }), &mut |x, _| {
+    mutate_nth(&mut m.doc, sch, m.excl.typename, s, &|x| matches!(x, Site::Field { def: Some(_), .. }), &mut |x, _| {
         if let Site::Field { f, def: Some(d), .. } = x {
             if sch.is_leaf(d.ty.base()) {
                 f.sel = typename_sel();
@@ -1104,7 +1121,7 @@ fn op_leaf_selection(m: &mut M<'_>, s: &mut dyn Src) -> bool {
 fn op_misplaced_directive(m: &mut M<'_>, s: &mut dyn Src) -> bool {
     let sch = m.sch;
     let no_vardefs = m.excl.variable_directives;
-    mutate_nth(&mut m.doc, sch, s, &|x| matches!(x, Site::Dirs { location, .. } if !(no_vardefs && *location == "VARIABLE_DEFINITION")), &mut |x, s| {
+    mutate_nth(&mut m.doc, sch, m.excl.typename, s, &|x| matches!(x, Site::Dirs { location, .. } if !(no_vardefs && *location == "VARIABLE_DEFINITION")), &mut |x, s| {
         if let Site::Dirs { ds, location } = x {
             let executable = ["FIELD", "INLINE_FRAGMENT", "FRAGMENT_SPREAD"].contains(&location);
             let d = if executable {
@@ -1208,18 +1225,19 @@ fn op_invalid_default(m: &mut M<'_>, s: &mut dyn Src) -> bool {
 }
 
 /// a JSON value that variable coercion must reject for `ty` (None: no such value in this domain)
-fn wrong_runtime(sch: &Sch, ty: &Ty, s: &mut dyn Src) -> Option<CV> {
+fn wrong_runtime(sch: &Sch, ty: &Ty, no_int_range: bool, s: &mut dyn Src) -> Option<CV> {
     if ty.is_nn() && s.chance(1, 4) {
         return Some(CV::Null);
     }
     match ty.nullable() {
         Ty::NonNull(_) => None,
         Ty::List(inner) => {
-            let w = wrong_runtime(sch, inner, s)?;
+            let w = wrong_runtime(sch, inner, no_int_range, s)?;
             Some(if s.bool() { CV::List(vec![w]) } else { w })
         }
         Ty::Named(n) => {
             let xs: Vec<CV> = match n.as_str() {
+                "Int" if no_int_range => vec![CV::Str("1".into()), CV::Float(1.5), CV::Bool(true), CV::Obj(IndexMap::new())],
                 "Int" => vec![CV::Str("1".into()), CV::Float(1.5), CV::Bool(true), CV::Int(2147483648), CV::Int(-2147483649), CV::Obj(IndexMap::new())],
                 "Float" => vec![CV::Str("1.5".into()), CV::Bool(false), CV::List(vec![CV::Str("x".into())])],
                 "String" => vec![CV::Int(1), CV::Float(0.5), CV::Bool(true), CV::Obj(IndexMap::new())],
@@ -1278,14 +1296,12 @@ fn op_variable_values(m: &mut M<'_>, s: &mut dyn Src) -> bool {
         return false;
     }
     let vd = &vars[s.choose(vars.len())];
-    if vd.ty.ty.is_nn() && vd.default.is_none() && !m.excl.non_null_variables && s.chance(1, 3) {
+    if vd.ty.ty.is_nn() && vd.default.is_none() && s.chance(1, 3) {
         // a required variable is not provided
         m.vars.shift_remove(&vd.name.s);
         return true;
     }
-    // with C09-F8 open, a top-level null for a non-null variable is left to the probe stream
-    let ty = if m.excl.non_null_variables { vd.ty.ty.nullable().clone() } else { vd.ty.ty.clone() };
-    match wrong_runtime(sch, &ty, s) {
+    match wrong_runtime(sch, &vd.ty.ty, m.excl.int_range, s) {
         Some(w) => {
             m.vars.insert(vd.name.s.clone(), w);
             true
@@ -1349,25 +1365,6 @@ fn op_type_system_definition(m: &mut M<'_>, s: &mut dyn Src) -> bool {
     let defs = [" type Zz9 { a: Int }", " extend type Query { zz9: Int }", " scalar Zz9", " schema { query: Query }", " directive @zz9 on FIELD", " enum Zz9 { A }"];
     m.extra_text = defs[s.choose(defs.len())].to_string();
     m.extra_defs = 1;
-    true
-}
-
-fn op_missing_root_type(m: &mut M<'_>, s: &mut dyn Src) -> bool {
-    let sch = m.sch;
-    let mut missing = vec![];
-    if sch.mutation.is_none() {
-        missing.push(OpKind::Mutation);
-    }
-    if sch.subscription.is_none() {
-        missing.push(OpKind::Subscription);
-    }
-    if missing.is_empty() {
-        return false;
-    }
-    let k = missing[s.choose(missing.len())];
-    let o = m.first_op();
-    o.explicit = true;
-    o.kind = k;
     true
 }
 
@@ -1457,7 +1454,7 @@ fn v_defaulted_nullable_variable(m: &mut M<'_>, s: &mut dyn Src) -> bool {
 fn v_nested_variable(m: &mut M<'_>, s: &mut dyn Src) -> bool {
     let sch = m.sch;
     let mut new: Option<(Ty, Val)> = None;
-    let ok = mutate_nth(&mut m.doc, sch, s, &|x| matches!(x, Site::Value { v, konst: false, ty } if !matches!(v.v, Val::Var(_)) && sch.kind(ty.base()).is_some()), &mut |x, _| {
+    let ok = mutate_nth(&mut m.doc, sch, m.excl.typename, s, &|x| matches!(x, Site::Value { v, konst: false, ty } if !matches!(v.v, Val::Var(_)) && sch.kind(ty.base()).is_some()), &mut |x, _| {
         if let Site::Value { v, ty, .. } = x {
             new = Some((ty.clone(), v.v.clone()));
             v.v = Val::Var("zn1".into());
@@ -1477,7 +1474,7 @@ fn v_nested_variable(m: &mut M<'_>, s: &mut dyn Src) -> bool {
 /// `[x]` written as `x` (list input coercion)
 fn v_single_value_for_list(m: &mut M<'_>, s: &mut dyn Src) -> bool {
     let sch = m.sch;
-    mutate_nth(&mut m.doc, sch, s, &|x| matches!(x, Site::Value { v, ty, .. } if ty.is_list() && matches!(&v.v, Val::List(l) if l.len() == 1 && !matches!(l[0].v, Val::List(_) | Val::Null | Val::Var(_)))), &mut |x, _| {
+    mutate_nth(&mut m.doc, sch, m.excl.typename, s, &|x| matches!(x, Site::Value { v, ty, .. } if ty.is_list() && matches!(&v.v, Val::List(l) if l.len() == 1 && !matches!(l[0].v, Val::List(_) | Val::Null | Val::Var(_)))), &mut |x, _| {
         if let Site::Value { v, .. } = x {
             if let Val::List(l) = &v.v {
                 let inner = l[0].v.clone();
@@ -1515,7 +1512,7 @@ const INVALIDATING: [(&str, Operator); 26] = [
     ("operations", op_operations),
     ("duplicate-fragment", op_duplicate_fragment),
 ];
-const INVALIDATING_RARE: [(&str, Operator); 2] = [("type-system-definition", op_type_system_definition), ("missing-root-type", op_missing_root_type)];
+const INVALIDATING_RARE: [(&str, Operator); 1] = [("type-system-definition", op_type_system_definition)];
 const PRESERVING: [(&str, Operator); 6] = [
     ("second-operation", v_second_operation),
     ("introspection", v_introspection),
@@ -1530,7 +1527,7 @@ fn op_probe_input_object(m: &mut M<'_>, s: &mut dyn Src) -> bool {
     let sch = m.sch;
     let is_input = |ty: &Ty| matches!(ty.nullable(), Ty::Named(n) if sch.kind(n) == Some(Kind::Input));
     // make sure an input-object argument is given somewhere
-    mutate_nth(&mut m.doc, sch, s, &|x| matches!(x, Site::Field { f, def: Some(d), .. } if d.args.iter().any(|a| is_input(&a.ty) && !f.args.iter().any(|(n, _)| n.s == a.name))), &mut |x, s| {
+    mutate_nth(&mut m.doc, sch, m.excl.typename, s, &|x| matches!(x, Site::Field { f, def: Some(d), .. } if d.args.iter().any(|a| is_input(&a.ty) && !f.args.iter().any(|(n, _)| n.s == a.name))), &mut |x, s| {
         if let Site::Field { f, def: Some(d), .. } = x {
             for a in d.args.iter().filter(|a| is_input(&a.ty)) {
                 if !f.args.iter().any(|(n, _)| n.s == a.name) {
@@ -1541,7 +1538,7 @@ fn op_probe_input_object(m: &mut M<'_>, s: &mut dyn Src) -> bool {
     });
     let snapshot = M { sch, doc: Doc::default(), vars: IndexMap::new(), op_name: None, extra_text: String::new(), extra_defs: 0, excl: m.excl };
     let mut changed = false;
-    mutate_nth(&mut m.doc, sch, s, &|x| matches!(x, Site::Value { ty, v, .. } if is_input(ty) && !matches!(v.v, Val::Var(_))), &mut |x, s| {
+    mutate_nth(&mut m.doc, sch, m.excl.typename, s, &|x| matches!(x, Site::Value { ty, v, .. } if is_input(ty) && !matches!(v.v, Val::Var(_))), &mut |x, s| {
         if let Site::Value { v, ty, .. } = x {
             if let Some(w) = wrong_literal(&snapshot, ty, &v.v, s) {
                 v.v = w;
@@ -1550,6 +1547,188 @@ fn op_probe_input_object(m: &mut M<'_>, s: &mut dyn Src) -> bool {
         }
     });
     changed
+}
+
+/// probe operator (C09-F6): an enum value written as a string literal
+fn op_probe_enum_string(m: &mut M<'_>, s: &mut dyn Src) -> bool {
+    let sch = m.sch;
+    let is_enum = |ty: &Ty| matches!(ty.nullable(), Ty::Named(n) if sch.kind(n) == Some(Kind::Enum));
+    mutate_nth(&mut m.doc, sch, m.excl.typename, s, &|x| matches!(x, Site::Field { f, def: Some(d), .. } if d.args.iter().any(|a| is_enum(&a.ty) && !f.args.iter().any(|(n, _)| n.s == a.name))), &mut |x, s| {
+        if let Site::Field { f, def: Some(d), .. } = x {
+            for a in d.args.iter().filter(|a| is_enum(&a.ty)) {
+                if !f.args.iter().any(|(n, _)| n.s == a.name) {
+                    f.args.push((Name::new(a.name.clone()), PVal::new(gen_input_literal(sch, &Ty::nn(a.ty.clone()), s, 0))));
+                }
+            }
+        }
+    });
+    mutate_nth(&mut m.doc, sch, m.excl.typename, s, &|x| matches!(x, Site::Value { v, .. } if matches!(v.v, Val::Enum(_))), &mut |x, _| {
+        if let Site::Value { v, .. } = x {
+            if let Val::Enum(e) = &v.v {
+                v.v = Val::Str(e.clone());
+            }
+        }
+    })
+}
+
+/// probe operator (C09-F7): an unknown or misplaced directive on a variable definition
+fn op_probe_variable_directive(m: &mut M<'_>, s: &mut dyn Src) -> bool {
+    let o = m.first_op();
+    if o.vars.is_empty() {
+        return false;
+    }
+    let k = s.choose(o.vars.len());
+    let d = match s.choose(3) {
+        0 => Directive::new("zz9", vec![]),
+        1 => Directive::new("skip", vec![("if", Val::Bool(true))]),
+        _ => Directive::new("deprecated", vec![]),
+    };
+    o.vars[k].directives.push(d);
+    true
+}
+
+/// probe operator (C09-F9): a wrong literal next to a variable that gets no value, inside one argument
+fn op_probe_unsupplied_variable(m: &mut M<'_>, s: &mut dyn Src) -> bool {
+    let sch = m.sch;
+    let fits = |a: &ArgDef| matches!(a.ty.nullable(), Ty::List(_)) || matches!(a.ty.nullable(), Ty::Named(n) if sch.ty(n).map_or(false, |t| t.kind == Kind::Input && !t.one_of && !t.input_fields.is_empty()));
+    let snapshot = M { sch, doc: Doc::default(), vars: IndexMap::new(), op_name: None, extra_text: String::new(), extra_defs: 0, excl: m.excl };
+    let mut new_var: Option<VarDef> = None;
+    let ok = mutate_nth(&mut m.doc, sch, m.excl.typename, s, &|x| matches!(x, Site::Field { def: Some(d), .. } if d.args.iter().any(|a| fits(a))), &mut |x, s| {
+        if let Site::Field { f, def: Some(d), .. } = x {
+            let cands: Vec<&ArgDef> = d.args.iter().filter(|a| fits(a)).collect();
+            let a = cands[s.choose(cands.len())];
+            let var_of = |ty: &Ty, s: &mut dyn Src| -> VarDef { vardef("zu1", ty.clone(), if ty.is_nn() { Some(gen_input_literal(sch, ty, s, 1)) } else { None }) };
+            let value = match a.ty.nullable() {
+                Ty::List(item) => {
+                    let w = match wrong_literal(&snapshot, item, &Val::Null, s) {
+                        Some(w) => w,
+                        None => return,
+                    };
+                    new_var = Some(var_of(item, s));
+                    Val::List(vec![PVal::new(w), PVal::new(Val::Var("zu1".into()))])
+                }
+                Ty::Named(n) => {
+                    let td = sch.ty(n).unwrap();
+                    let mut fields = match gen_input_literal(sch, &Ty::named(n), s, 1) {
+                        Val::Obj(f) => f,
+                        _ => vec![],
+                    };
+                    let fd = &td.input_fields[s.choose(td.input_fields.len())];
+                    fields.retain(|(k, _)| k.s != fd.name);
+                    fields.push((Name::new(fd.name.clone()), PVal::new(Val::Var("zu1".into()))));
+                    fields.push((Name::new("zz9"), PVal::new(Val::Int("1".into()))));
+                    new_var = Some(var_of(&fd.ty, s));
+                    Val::Obj(fields)
+                }
+                _ => return,
+            };
+            f.args.retain(|(n, _)| n.s != a.name);
+            f.args.push((Name::new(a.name.clone()), PVal::new(value)));
+        }
+    });
+    match new_var {
+        Some(v) if ok => {
+            let o = m.first_op();
+            o.explicit = true;
+            o.vars.push(v);
+            true
+        }
+        _ => false,
+    }
+}
+
+/// probe operator (C09-F10): a default value for a variable whose list type names an unknown type
+fn op_probe_unknown_list_default(m: &mut M<'_>, s: &mut dyn Src) -> bool {
+    let o = m.first_op();
+    o.explicit = true;
+    let ty = match s.choose(3) {
+        0 => Ty::list(Ty::named("Zz9")),
+        1 => Ty::nn(Ty::list(Ty::named("Zz9"))),
+        _ => Ty::list(Ty::list(Ty::nn(Ty::named("Zz9")))),
+    };
+    let d = match s.choose(3) {
+        0 => Val::List(vec![PVal::new(Val::Int("1".into()))]),
+        1 => Val::Str("x".into()),
+        _ => Val::List(vec![PVal::new(Val::List(vec![PVal::new(Val::Bool(true))]))]),
+    };
+    o.vars.push(vardef("zz9", ty, Some(d)));
+    true
+}
+
+/// probe operator (C09-F11): arguments, directives, sub-selections on `__typename`
+fn op_probe_typename(m: &mut M<'_>, s: &mut dyn Src) -> bool {
+    let sch = m.sch;
+    let mut new_var = false;
+    let ok = mutate_nth(&mut m.doc, sch, false, s, &|x| matches!(x, Site::Sel { root_of, .. } if *root_of != Some(OpKind::Subscription)), &mut |x, s| {
+        if let Site::Sel { sel, .. } = x {
+            let mut f = fld("__typename", Some("zt"));
+            match s.choose(6) {
+                0 => f.args.push((Name::new("zz9"), PVal::new(Val::Int("1".into())))),
+                1 => f.directives.push(Directive::new("zz9", vec![])),
+                2 => f.directives.push(Directive::new("deprecated", vec![])),
+                3 => {
+                    f.directives.push(Directive::new("skip", vec![("if", Val::Bool(false))]));
+                    f.directives.push(Directive::new("skip", vec![("if", Val::Bool(false))]));
+                }
+                4 => f.sel = typename_sel(),
+                // valid: the only use of a variable
+                _ => {
+                    f.directives.push(Directive::new("skip", vec![("if", Val::Var("zt1".into()))]));
+                    new_var = true;
+                }
+            }
+            sel.items.push(Selection::Field(f));
+        }
+    });
+    if ok && new_var {
+        let o = m.first_op();
+        o.explicit = true;
+        o.vars.push(vardef("zt1", Ty::nn(Ty::named("Boolean")), None));
+        m.vars.insert("zt1".into(), CV::Bool(false));
+    }
+    ok
+}
+
+/// probe operator (C09-F12): an integer beyond 32 bits where Int is expected (literal, default or variable value)
+fn op_probe_int_range(m: &mut M<'_>, s: &mut dyn Src) -> bool {
+    let sch = m.sch;
+    let big = |s: &mut dyn Src| -> i64 { *vcore::gens::pick(s, &[2147483648i64, -2147483649, 9007199254740993, i64::MAX, i64::MIN]) };
+    // variable values
+    if s.chance(1, 3) {
+        let ints: Vec<String> = m.first_op().vars.iter().filter(|v| v.ty.ty.nullable() == &Ty::named("Int")).map(|v| v.name.s.clone()).collect();
+        if !ints.is_empty() {
+            let n = ints[s.choose(ints.len())].clone();
+            m.vars.insert(n, CV::Int(big(s)));
+            return true;
+        }
+    }
+    mutate_nth(&mut m.doc, sch, m.excl.typename, s, &|x| matches!(x, Site::Field { f, def: Some(d), .. } if d.args.iter().any(|a| a.ty.base() == "Int" && !f.args.iter().any(|(n, _)| n.s == a.name))), &mut |x, s| {
+        if let Site::Field { f, def: Some(d), .. } = x {
+            for a in d.args.iter().filter(|a| a.ty.base() == "Int") {
+                if !f.args.iter().any(|(n, _)| n.s == a.name) {
+                    f.args.push((Name::new(a.name.clone()), PVal::new(gen_input_literal(sch, &Ty::nn(a.ty.clone()), s, 0))));
+                }
+            }
+        }
+    });
+    mutate_nth(&mut m.doc, sch, m.excl.typename, s, &|x| matches!(x, Site::Value { v, ty, .. } if ty.nullable() == &Ty::named("Int") && matches!(v.v, Val::Int(_))), &mut |x, s| {
+        if let Site::Value { v, .. } = x {
+            v.v = Val::Int(big(s).to_string());
+        }
+    })
+}
+
+/// C09-F10's description, executable: validation panics ("Type `X` not defined") when a variable definition has a
+/// list type whose named type is unknown and a default value in which something other than null or a list is reached
+fn panics_on_unknown_list_default(sch: &Sch, doc: &Doc) -> bool {
+    fn reaches_named(v: &Val) -> bool {
+        match v {
+            Val::Null => false,
+            Val::List(l) => l.iter().any(|x| reaches_named(&x.v)),
+            _ => true,
+        }
+    }
+    doc.ops().any(|o| o.vars.iter().any(|v| v.ty.ty.is_list() && sch.kind(v.ty.ty.base()).is_none() && v.default.as_ref().map_or(false, |d| reaches_named(&d.v))))
 }
 
 // ---------------------------------------------------------------------------------------------------------------
@@ -1581,8 +1760,9 @@ fn all_quirks(open: &[(String, Quirks)]) -> Quirks {
         q.non_object_for_input_object_accepted |= x.non_object_for_input_object_accepted;
         q.string_literal_for_enum_accepted |= x.string_literal_for_enum_accepted;
         q.variable_directives_unchecked |= x.variable_directives_unchecked;
-        q.non_null_variables_not_enforced |= x.non_null_variables_not_enforced;
         q.unsupplied_variable_disables_argument_check |= x.unsupplied_variable_disables_argument_check;
+        q.typename_fields_unvisited |= x.typename_fields_unvisited;
+        q.int_accepts_64_bits |= x.int_accepts_64_bits;
     }
     q
 }
@@ -1607,7 +1787,17 @@ fn run_case(s: &mut dyn Src, target: &Target<'_>, plan: &Plan) -> Case {
         Target::Static { sch, .. } => (sch, None),
         Target::Dynamic => {
             let sch = gen_sch(s, &SchCfg { subscription: true, ..SchCfg::default() });
-            let world = gen_world(&sch, s, &WorldCfg { null_composite_items: false, ..WorldCfg::default() });
+            let mut world = gen_world(&sch, s, &WorldCfg { null_composite_items: false, ..WorldCfg::default() });
+            // dynbuild reads a list value of a subscription field as the sequence of events: one event holding the list
+            if let (Some(root), Some(rt)) = (world.subscription_root, sch.subscription.as_ref()) {
+                for fd in &sch.types[rt].fields {
+                    if let Some(v) = world.nodes[root].fields.get_mut(&fd.name) {
+                        if fd.ty.is_list() && matches!(v, WVal::List(_)) {
+                            *v = WVal::List(vec![v.clone()]);
+                        }
+                    }
+                }
+            }
             gen_sch_world = (sch, world);
             (&gen_sch_world.0, Some(&gen_sch_world.1))
         }
@@ -1680,6 +1870,19 @@ fn run_case(s: &mut dyn Src, target: &Target<'_>, plan: &Plan) -> Case {
             }
         },
     }
+    judge(target, sch, world, &mut m, &labels, plan, had_vars && had_frags)
+}
+
+/// Print the request, ask the reference validator, run the request, compare.
+fn judge(target: &Target<'_>, sch: &Sch, world: Option<&World>, m: &mut M<'_>, labels: &[&'static str], plan: &Plan, vars_and_frags: bool) -> Case {
+    // the query shorthand cannot carry a name, variables or directives
+    for d in m.doc.defs.iter_mut() {
+        if let Def::Op(o) = d {
+            if o.name.is_some() || !o.vars.is_empty() || !o.directives.is_empty() {
+                o.explicit = true;
+            }
+        }
+    }
     let mut text = print_plain(&mut m.doc);
     text.push_str(&m.extra_text);
     let vars_json = serde_json::Value::Object(m.vars.iter().map(|(k, v)| (k.clone(), v.to_json())).collect());
@@ -1703,12 +1906,18 @@ fn run_case(s: &mut dyn Src, target: &Target<'_>, plan: &Plan) -> Case {
     // the implementation
     let stream = selected_kind(&m.doc, m.op_name.as_deref()) == Some(OpKind::Subscription);
     let req = request(&text, &m.vars, m.op_name.as_deref());
-    let out = match target {
-        Target::Static { schema, tap, .. } => run_static(schema, tap, req, stream),
-        Target::Dynamic => match run_dynamic(sch, world.unwrap(), req, stream) {
-            Ok(o) => o,
-            Err(e) => return Case::fail(rendered, format!("HARNESS: {}", e)),
-        },
+    let ran = vcore::drive::catch(|| match target {
+        Target::Static { schema, tap, .. } => Ok(run_static(schema, tap, req, stream)),
+        Target::Dynamic => run_dynamic(sch, world.unwrap(), req, stream),
+    });
+    let out = match ran {
+        Ok(Ok(o)) => o,
+        Ok(Err(e)) => return Case::fail(rendered, format!("HARNESS: {}", e)),
+        Err(panic) => {
+            let known = plan.open.iter().any(|(id, _)| id == "C09-F10") && panics_on_unknown_list_default(sch, &m.doc) && panic.contains("not defined");
+            let c = if known { Case::known(rendered, vec!["C09-F10".into()]) } else { Case::fail(rendered, format!("panic while handling the request: {}", panic)) };
+            return c.class("panic");
+        }
     };
     let stage = match &out.validation {
         None => "validation not reached",
@@ -1716,11 +1925,19 @@ fn run_case(s: &mut dyn Src, target: &Target<'_>, plan: &Plan) -> Case {
         Some(Err(_)) => "validation failed",
     };
     let n_errors: usize = out.responses.iter().map(|r| r.errors.len()).sum();
+    // the dynamic builder's subscription resolvers only serve leaf events: execution errors are the harness's there
+    let execution_observable = !(stream && world.is_some());
     let mut case = if rules.is_empty() {
-        if out.validation.as_ref().map_or(true, |v| v.is_err()) || n_errors > 0 {
-            Case::fail(rendered, format!("a valid request was not executed cleanly ({}): {}", stage, errors_text(&out.responses)))
+        if out.validation.as_ref().map_or(true, |v| v.is_err()) || (n_errors > 0 && execution_observable) {
+            // do the open findings predict exactly this: validation rejects?
+            let owned: Vec<(String, Quirks)> = plan.open.iter().filter(|(_, q)| !validate_full(&inp, *q).is_valid()).cloned().collect();
+            if !owned.is_empty() && matches!(out.validation, Some(Err(_))) {
+                Case::known(rendered, owned.iter().map(|(id, _)| id.clone()).collect())
+            } else {
+                Case::fail(rendered, format!("a valid request was not executed cleanly ({}): {}", stage, errors_text(&out.responses)))
+            }
         } else {
-            Case::pass(rendered).class("valid").class_if(!labels.is_empty(), "valid-after-operator").class_if(had_vars && had_frags && labels.is_empty(), "valid-with-variables-and-fragments").nontrivial(had_vars && had_frags)
+            Case::pass(rendered).class("valid").class_if(!labels.is_empty(), "valid-after-operator").class_if(vars_and_frags && labels.is_empty(), "valid-with-variables-and-fragments").nontrivial(vars_and_frags)
         }
     } else {
         let unlocated: Vec<String> = out.responses.iter().flat_map(|r| r.errors.iter()).filter(|e| e.locations.is_empty()).map(|e| e.message.clone()).collect();
@@ -1750,6 +1967,17 @@ fn run_case(s: &mut dyn Src, target: &Target<'_>, plan: &Plan) -> Case {
             }
         }
     };
+    if let Ok(t) = std::env::var("C09_TRACE") {
+        if labels.contains(&t.as_str()) {
+            eprintln!("TRACE\t{:?}\t{}\tcalls={}\t{:?}\t{}\t{}", rules, stage, out.resolver_calls, case.verdict, text.replace('\n', " "), vars_json);
+        }
+    }
+    if std::env::var("C09_SURVEY").is_ok() {
+        if let vcore::drive::Verdict::Fail(w) = &case.verdict {
+            eprintln!("SURVEY\t{:?}\t{:?}\t{}\t{}\t{}", rules, labels, stage, w.chars().take(160).collect::<String>().replace('\n', " "), text.replace('\n', " "));
+            case = Case::pass(case.text.clone()).class("SURVEY-FAIL");
+        }
+    }
     for r in &rules {
         case = case.class(format!("rule:{}", r));
     }
@@ -1868,7 +2096,9 @@ pub fn run(ctx: &mut Ctx) {
     ctx.assume("integral floats for Int variables and similar cases that vgql::coerce marks implementation-defined are discarded");
     ctx.assume("Upload-typed variables are outside the domain (documented restriction of async-graphql)");
     ctx.assume("variables inside variable default values are a syntax matter (C13), not generated");
-    ctx.assume("valid requests run against fault-free data, so any error in a response to a valid request is a failure");
+    ctx.assume("valid requests run against fault-free data, so any error in a response to a valid request is a failure; exception: subscriptions on dynamic schemas, where only the validation verdict is observed (the harness's dynamic subscription resolvers serve leaf events only)");
+    ctx.assume("operations of a kind the schema has no root type for are discarded (not a rule of October 2021 section 5)");
+    ctx.assume("a nullable variable as the field of a OneOf input object (static rule of the RFC only) and requests in which a variable is null at run time in a non-null position (a field error of execution by the note in 5.8.5) are discarded");
 
     // static target
     let tap = Tap::default();
@@ -1885,7 +2115,10 @@ pub fn run(ctx: &mut Ctx) {
         return;
     }
 
-    let findings: [(&str, Quirks); 9] = [
+    let findings: [(&str, Quirks); 11] = [
+        ("C09-F10", Quirks::default()),
+        ("C09-F11", Quirks { typename_fields_unvisited: true, ..Quirks::default() }),
+        ("C09-F12", Quirks { int_accepts_64_bits: true, ..Quirks::default() }),
         ("C09-F1", Quirks { no_variable_usage_check: true, ..Quirks::default() }),
         ("C09-F2", Quirks { merge_same_condition_only: true, ..Quirks::default() }),
         ("C09-F3", Quirks { no_subscription_root_count: true, ..Quirks::default() }),
@@ -1893,10 +2126,14 @@ pub fn run(ctx: &mut Ctx) {
         ("C09-F5", Quirks { non_object_for_input_object_accepted: true, ..Quirks::default() }),
         ("C09-F6", Quirks { string_literal_for_enum_accepted: true, ..Quirks::default() }),
         ("C09-F7", Quirks { variable_directives_unchecked: true, ..Quirks::default() }),
-        ("C09-F8", Quirks { non_null_variables_not_enforced: true, ..Quirks::default() }),
         ("C09-F9", Quirks { unsupplied_variable_disables_argument_check: true, ..Quirks::default() }),
     ];
-    let open: Vec<(String, Quirks)> = findings.iter().filter(|(id, _)| ctx.open(id)).map(|(id, q)| (id.to_string(), *q)).collect();
+    // verification of a proposed repair: VERIF_C09_ASSUME_FIXED=C09-F1,C09-F3 treats these findings as not open
+    let assume_fixed: Vec<String> = std::env::var("VERIF_C09_ASSUME_FIXED").map(|v| v.split(',').map(|x| x.trim().to_string()).collect()).unwrap_or_default();
+    if !assume_fixed.is_empty() {
+        ctx.note("assume_fixed", serde_json::json!(assume_fixed));
+    }
+    let open: Vec<(String, Quirks)> = findings.iter().filter(|(id, _)| ctx.open(id) && !assume_fixed.iter().any(|a| a == id)).map(|(id, q)| (id.to_string(), *q)).collect();
     let is_open = |id: &str| open.iter().any(|(i, _)| i == id);
     let excl = Excl {
         var_position: is_open("C09-F1"),
@@ -1904,6 +2141,11 @@ pub fn run(ctx: &mut Ctx) {
         subscription_roots: is_open("C09-F3"),
         duplicate_input_fields: is_open("C09-F4"),
         non_object_for_input: is_open("C09-F5"),
+        string_for_enum: is_open("C09-F6"),
+        variable_directives: is_open("C09-F7"),
+        unknown_list_default: is_open("C09-F10"),
+        typename: is_open("C09-F11"),
+        int_range: is_open("C09-F12"),
         force_input_kind: None,
     };
     for (id, _) in &open {
@@ -1917,17 +2159,51 @@ pub fn run(ctx: &mut Ctx) {
     }
 
     let st_target = Target::Static { schema: &schema, tap: &tap, sch: &static_sch };
-    let n = ctx.tier.pick(4_000, 150_000);
+
+    // minimised witnesses of the findings (static schema): known while the finding is open, must pass once repaired
+    let witnesses: [(&'static str, &str, &str); 14] = [
+        ("C09-F1", "query($v: Int) { sum(xs: $v) }", r#"{"v": 1}"#),
+        ("C09-F2", "{ things { ... on Dog { k: name } ... on Robot { k: model } } }", "{}"),
+        ("C09-F2", "{ k: dog { x: name } k: dog { x: barks } }", "{}"),
+        ("C09-F3", "subscription { ticks events { __typename } }", "{}"),
+        ("C09-F4", "{ echo(p: {x: 1, x: 2}) }", "{}"),
+        ("C09-F5", "{ dog { name } echo(p: 1) }", "{}"),
+        ("C09-F5", "query($f: Filter) { dog { name } things(filter: $f) { __typename } }", r#"{"f": "x"}"#),
+        ("C09-F6", r#"{ echo(p: {x: 1}, c: "RED") }"#, "{}"),
+        ("C09-F7", "query($a: Int! @zz9) { sum(xs: [$a]) }", r#"{"a": 1}"#),
+        ("C09-F9", "query($a: [String!]) { dog { name } echo(p: {x: 1, label: 3, tags: $a}) }", "{}"),
+        ("C09-F10", "query($a: [Zz9] = [1]) { dog { name } }", "{}"),
+        ("C09-F11", "{ __typename(zz9: 1) dog { name } }", "{}"),
+        ("C09-F11", "query($v: Boolean!) { __typename @skip(if: $v) }", r#"{"v": true}"#),
+        ("C09-F12", "{ dog { name legs(min: -2147483649) } }", "{}"),
+    ];
+    let t0 = std::time::Instant::now();
+    for (id, q, vars) in witnesses {
+        let doc = vgql::refparse::parse_executable(q, &vgql::refparse::Opts::default()).expect("witness parses");
+        let vars: IndexMap<String, CV> = serde_json::from_str::<serde_json::Value>(vars).expect("witness variables").as_object().map(|o| o.iter().map(|(k, v)| (k.clone(), CV::from_json(v))).collect()).unwrap_or_default();
+        let mut m = M { sch: &static_sch, doc, vars, op_name: None, extra_text: String::new(), extra_defs: 0, excl };
+        let c = judge(&st_target, &static_sch, None, &mut m, &[id], &plan, false);
+        ctx.check_case("witnesses", c, serde_json::json!({ "finding": id }));
+    }
+    ctx.enumerated("witnesses", witnesses.len() as u64, true, t0);
+
+    let n = ctx.tier.pick(12_000, 400_000);
     ctx.stream("dynamic", n, 700, |s| run_case(s, &Target::Dynamic, &plan));
     ctx.stream("static", n * 3 / 4, 500, |s| run_case(s, &st_target, &plan));
 
     // probe streams: the constructs of the open findings, deviations must be exactly the predicted ones
-    let probes: [(&str, &str, Operator, Option<u8>, bool); 5] = [
+    let probes: [(&str, &str, Operator, Option<u8>, bool); 11] = [
+        ("C09-F10", "default-for-unknown-list-type", op_probe_unknown_list_default, None, false),
+        ("C09-F11", "typename-decorations", op_probe_typename, None, false),
+        ("C09-F12", "int-beyond-32-bits", op_probe_int_range, None, false),
         ("C09-F1", "variable-type", op_variable_type, None, false),
         ("C09-F2", "conflicting-response-keys", op_conflict, None, false),
         ("C09-F3", "subscription-roots", op_subscription_roots, None, true),
         ("C09-F4", "duplicate-input-field", op_probe_input_object, Some(3), false),
         ("C09-F5", "non-object-for-input-object", op_probe_input_object, Some(0), false),
+        ("C09-F6", "string-for-enum", op_probe_enum_string, None, false),
+        ("C09-F7", "variable-definition-directive", op_probe_variable_directive, None, false),
+        ("C09-F9", "wrong-literal-next-to-unsupplied-variable", op_probe_unsupplied_variable, None, false),
     ];
     for (id, label, f, kind, subs) in probes {
         if !is_open(id) {
@@ -1942,7 +2218,13 @@ pub fn run(ctx: &mut Ctx) {
             "C09-F2" => p.excl.cross_condition_conflicts = false,
             "C09-F3" => p.excl.subscription_roots = false,
             "C09-F4" => p.excl.duplicate_input_fields = false,
-            _ => p.excl.non_object_for_input = false,
+            "C09-F5" => p.excl.non_object_for_input = false,
+            "C09-F6" => p.excl.string_for_enum = false,
+            "C09-F7" => p.excl.variable_directives = false,
+            "C09-F10" => p.excl.unknown_list_default = false,
+            "C09-F11" => p.excl.typename = false,
+            "C09-F12" => p.excl.int_range = false,
+            _ => {}
         }
         let name = format!("probe-{}", id);
         ctx.stream(&name, n / 10, 700, |s| if s.bool() { run_case(s, &Target::Dynamic, &p) } else { run_case(s, &st_target, &p) });
@@ -1974,11 +2256,17 @@ fn probe_file(path: &str, schema: &st::S, tap: &Tap, static_sch: &Sch) {
         }
         let stream = doc.as_ref().ok().and_then(|d| selected_kind(d, op_name)) == Some(OpKind::Subscription);
         let req = request(&text, &vars, op_name);
-        let out = match &dynsch {
+        let out = match vcore::drive::catch(|| match &dynsch {
             None => run_static(schema, tap, req, stream),
             Some(s) => {
                 let w = gen_world(s, &mut vcore::src::VecSrc::new(&[]), &WorldCfg { null_composite_items: false, ..WorldCfg::default() });
                 run_dynamic(s, &w, req, stream).expect("build")
+            }
+        }) {
+            Ok(o) => o,
+            Err(p) => {
+                println!("    actual: PANIC {}", p);
+                continue;
             }
         };
         println!("    actual: validation {:?} resolver_calls {} responses {}", out.validation.as_ref().map(|v| v.as_ref().map_err(|e| e.iter().map(|x| x.message.clone()).collect::<Vec<_>>())), out.resolver_calls, out.responses.iter().map(|r| serde_json::to_string(r).unwrap()).collect::<Vec<_>>().join(" "));
